@@ -51,6 +51,7 @@ type propSpec struct {
 	Faults    string
 	ExtraEnv  map[string]string
 	NoSimTime bool
+	SmokeRuns int // runs of the determinism smoke test (default 24)
 	// Parts are additional scenarios that serve this property (each gets Percent of the runs and
 	// of the search budget; the main scenario gets the rest).
 	Parts []partSpec
@@ -253,6 +254,9 @@ func (c *ctx) prepare() {
 
 	// probes
 	c.must(c.mod, "build of generator driver", "go", "build", "-o", "gen.bin", "./gen")
+	if c.spec.MapOrder {
+		c.must("/", "copy of generator probe projects", "rsync", "-a", filepath.Join(verifDir, "probes/gen")+"/", filepath.Join(c.mod, "genprojects")+"/")
+	}
 	type job struct{ probe, variant string }
 	var jobs []job
 	for _, v := range c.ts.Variants {
@@ -447,7 +451,7 @@ type workerOut struct {
 }
 
 func (c *ctx) simEnv(mode string, extra map[string]string) []string {
-	e := []string{"SIM_MODE=" + mode, "SIM_PROPERTY=" + c.spec.ID, "SIM_TIER=" + c.tier,
+	e := []string{"SIM_MODE=" + mode, "SIM_PROPERTY=" + c.spec.ID, "SIM_TIER=" + c.tier, "SIM_MOD=" + c.mod,
 		"GORACE=halt_on_error=1 exitcode=66", "TMPDIR=" + filepath.Join(c.scratch, "tmp")}
 	for k, v := range c.spec.ExtraEnv {
 		e = append(e, k+"="+v)
@@ -1096,6 +1100,9 @@ func firstLine(s string) string {
 
 func (c *ctx) determinism() int {
 	n := 24
+	if c.spec.SmokeRuns > 0 {
+		n = c.spec.SmokeRuns
+	}
 	if c.ts.Runs < n {
 		n = c.ts.Runs
 	}
